@@ -507,6 +507,11 @@ func BVToInt(a *Term, signed bool) *Term {
 	if strings.HasPrefix(a.Op, "(_ zero_extend") && signed {
 		return BVToInt(a.Args[0], false)
 	}
+	if !signed && a.W() <= 32 {
+		if t := lowerBVToInt(a, 3); t != nil {
+			return t
+		}
+	}
 	// int2bv round trip is not simplified here (needs range knowledge)
 	u := app("bv2nat", SortInt, a)
 	if !signed {
@@ -514,6 +519,85 @@ func BVToInt(a *Term, signed bool) *Term {
 	}
 	neg := BVCmp("bvslt", a, BVInt(0, a.W()))
 	return Ite(neg, IntSub(u, IntConst(new(big.Int).Lsh(big.NewInt(1), uint(a.W())))), u)
+}
+
+// lowerBVToInt expresses the unsigned value of simple bit-vector arithmetic in linear integer arithmetic with
+// mod/div by constants (x*c, x+y, x-y, shifts and masks by constants), so that length and index reasoning stays
+// inside one theory. Returns nil when the term has no such form.
+func lowerBVToInt(a *Term, depth int) *Term {
+	w := a.W()
+	pow := func(k int) *Term { return IntConst(new(big.Int).Lsh(big.NewInt(1), uint(k))) }
+	leaf := func(x *Term) *Term {
+		if x.C != nil {
+			return IntConst(x.C)
+		}
+		if depth > 0 {
+			if t := lowerBVToInt(x, depth-1); t != nil {
+				return t
+			}
+		}
+		if strings.HasPrefix(x.Op, "(_ zero_extend") {
+			return BVToInt(x.Args[0], false)
+		}
+		return app("bv2nat", SortInt, x)
+	}
+	switch {
+	case a.Op == "bvmul" && (a.Args[0].C != nil || a.Args[1].C != nil):
+		return IntModFloor(IntMul(leaf(a.Args[0]), leaf(a.Args[1])), pow(w))
+	case a.Op == "bvadd":
+		return IntModFloor(IntAdd(leaf(a.Args[0]), leaf(a.Args[1])), pow(w))
+	case a.Op == "bvsub":
+		return IntModFloor(IntSub(leaf(a.Args[0]), leaf(a.Args[1])), pow(w))
+	case a.Op == "bvshl" && a.Args[1].C != nil && a.Args[1].C.Cmp(big.NewInt(int64(w))) < 0:
+		return IntModFloor(IntMul(leaf(a.Args[0]), pow(int(a.Args[1].C.Int64()))), pow(w))
+	case a.Op == "bvlshr" && a.Args[1].C != nil && a.Args[1].C.Cmp(big.NewInt(int64(w))) < 0:
+		return IntDivFloor(leaf(a.Args[0]), pow(int(a.Args[1].C.Int64())))
+	case a.Op == "bvurem" && a.Args[1].C != nil && a.Args[1].C.Sign() > 0:
+		return IntModFloor(leaf(a.Args[0]), IntConst(a.Args[1].C))
+	case a.Op == "bvudiv" && a.Args[1].C != nil && a.Args[1].C.Sign() > 0:
+		return IntDivFloor(leaf(a.Args[0]), IntConst(a.Args[1].C))
+	case a.Op == "bvand":
+		for i := 0; i < 2; i++ {
+			if c := a.Args[i].C; c != nil {
+				m := new(big.Int).Add(c, big.NewInt(1))
+				if m.BitLen() > 0 && new(big.Int).And(m, c).Sign() == 0 && c.Sign() > 0 { // c = 2^k - 1
+					return IntModFloor(leaf(a.Args[1-i]), IntConst(m))
+				}
+			}
+		}
+	}
+	return nil
+}
+
+// IntMirror returns the linear-integer reading of an unsigned bit-vector comparison over simple arithmetic
+// (nil if there is none). It is equivalent to c, and is assumed next to it so that facts established in
+// fixed-width arithmetic (4*h.Length <= 8, (4*h.Length)%8 == 0) are available to index reasoning over Int.
+func IntMirror(c *Term) *Term {
+	if c.Op == "not" {
+		if m := IntMirror(c.Args[0]); m != nil {
+			return Not(m)
+		}
+		return nil
+	}
+	if c.Op != "bvult" && c.Op != "bvule" && c.Op != "=" {
+		return nil
+	}
+	a, b := c.Args[0], c.Args[1]
+	if !a.IsBV() || a.W() > 32 {
+		return nil
+	}
+	la, lb := lowerBVToInt(a, 3), lowerBVToInt(b, 3)
+	if la == nil && lb == nil {
+		return nil
+	}
+	ia, ib := BVToInt(a, false), BVToInt(b, false)
+	switch c.Op {
+	case "bvult":
+		return IntLt(ia, ib)
+	case "bvule":
+		return IntLe(ia, ib)
+	}
+	return Eq(ia, ib)
 }
 
 // IntToBV converts a mathematical integer to a bit-vector of width w (two's complement wrap).
